@@ -41,6 +41,23 @@ def _attribute_memo(fn: ast.AST) -> Optional[str]:
     return None
 
 
+def _build_guard(fn: ast.AST) -> Optional[str]:
+    """name X when a procedure (no value returned) skips its whole body once self.X exists: `if self.X is not None: return` ... `self.X = value`"""
+    for st in fn.body:
+        if isinstance(st, ast.Expr) and isinstance(st.value, ast.Constant):
+            continue
+        if isinstance(st, ast.If) and st.body and isinstance(st.body[-1], ast.Return) and (st.body[-1].value is None or (isinstance(st.body[-1].value, ast.Constant) and st.body[-1].value.value is None)) \
+                and not st.orelse:
+            t = st.test
+            if isinstance(t, ast.Compare) and len(t.ops) == 1 and isinstance(t.ops[0], (ast.IsNot, ast.NotEq)) and isinstance(t.comparators[0], ast.Constant) and t.comparators[0].value is None:
+                t = t.left
+            if isinstance(t, ast.Attribute) and isinstance(t.value, ast.Name) and t.value.id == "self":
+                if any(isinstance(a, ast.Assign) and any(ast.unparse(x) == f"self.{t.attr}" for x in a.targets) for a in ast.walk(fn)):
+                    return t.attr
+        break                       # only a guard in front of everything else skips the whole procedure
+    return None
+
+
 def _self_reads(fn: ast.AST) -> Set[str]:
     out = set()
     for n in ast.walk(fn):
@@ -147,6 +164,17 @@ def findings(tree: ast.AST, repo_classes: Set[str], returns_mutable_func: Set[st
                             f0, ms = stale[0]
                             out.append((n, prefix + n.name, f"{n.name} remembers its result in self.{slot}; the result is computed from self.{f0}, which {', '.join(ms[:3])} can change "
                                                             f"afterwards without resetting self.{slot}: later calls return the value of the earlier state"))
+                if not deco and cls is not None and n.name != "__init__":
+                    slot = _build_guard(n)
+                    if slot:
+                        # a build step that is skipped once its product exists: the product was computed from public attributes, which the caller may set to
+                        # something else before building again - the second build silently keeps the product of the first
+                        assigned_here = {ast.unparse(x)[5:] for a in ast.walk(n) if isinstance(a, ast.Assign) for x in a.targets if ast.unparse(x).startswith("self.")}
+                        public = sorted(f for f in _self_reads(n) if not f.startswith("_") and f != slot and f not in assigned_here)
+                        if public:
+                            out.append((n, prefix + n.name, f"{n.name} returns at once when self.{slot} exists; self.{slot} was computed from the public attribute(s) "
+                                                            f"{', '.join('self.' + f for f in public[:4])}: after one of them is changed, calling {n.name} again keeps the product of the "
+                                                            f"earlier values"))
                 if deco:
                     if cls is not None and n.args.args and n.args.args[0].arg == "self":
                         writers = _field_writers(cls)
